@@ -27,6 +27,7 @@ def run(ctx):
         "scope: the request query is expected in Location when the target has $path and no query of its own (documentation: $path = the original request URI); for targets without $path the query of Location is not judged; Location paths are compared after RFC 3986 normalisation of unreserved escapes and hex case (%41 = A), hosts case-insensitively; an empty $path is only asked where the join is unambiguous",
         "scope: the scheme of the request = X-Forwarded-Proto if the client (a proxy in front) sent it, else that of the connection; a redirect= value outside 300..399 must leave an ordinary route to the target",
         "never sliced (in every quick run): request kinds on redirect routes - GET, HEAD, POST with a body (1 byte / 32 KiB+1), Upgrade: websocket / Websocket handshakes, Accept: text/event-stream - x 4 targets (two naming the instrumented upstream, so a request proxied instead of redirected is seen there) x {301, 308} x {plain, TLS}: all must get the configured 3xx + Location and contact no upstream; an exchange that breaks off on each of 4 attempts counts as 'never received the redirect' (timeouts excepted); strip/prepend values that need escaping (non-ASCII letter, ^) x 3 targets x 5 client paths spelling the prefix %C3%B6 / %c3%b6 / %5E",
+        "never sliced: histories of 2 and 3 requests sent one after the other through ONE redirect route whose host pattern (*.<key>.test) matches several hosts - all 64 ordered pairs of 8 requests differing in host (a./b.), path (incl. %2F) and query, and each pair with the first request repeated at the end - x 4 targets ($host with $path, $host with $path and own query, $host static, $path only) x {plain, TLS}; every answer must be the one that follows from its own request alone (invariant HistoryIndependent), whatever was asked before (the histories of one target also follow one another)",
         "in the replay of TLC's cases requests to the same redirect target are issued one after the other; simultaneous requests are covered by the concurrent stress runs of the DataPlane harness (16 goroutines, every documented $path/$host form, race detector), which this check runs as its 'schedules' part",
     ]
     base.run_prop(ctx, "C13", ctx.pick(4, 1),
